@@ -445,3 +445,29 @@ Proof.
   intros H. exists (pad_bytes m). split; [now apply pad_message_ok|]. split; [symmetry; now apply pad_bits_bytes|].
   rewrite pad_bytes_length, padded_len_blocks. apply Nat.mod_mul. discriminate.
 Qed.
+
+(* ---------- the §4 padding of the specification is well defined for every bit string ---------- *)
+Lemma zero_count_spec l :
+  let k := zero_count l in
+  k < 512 /\ (l + 1 + k) mod 512 = 448 /\ (forall j, j < k -> (l + 1 + j) mod 512 <> 448).
+Proof.
+  cbv zeta. rewrite (zero_count_char l ((959 - l mod 512) mod 512)) by lia.
+  split; [lia|]. split; [lia|]. intros j Hj. lia.
+Qed.
+
+Lemma pad_bits_whole_blocks msg : N.of_nat (length (pad_bits msg)) mod 512 = 0.
+Proof.
+  unfold pad_bits. rewrite !app_length, repeat_length, bits_be_length. cbn [length].
+  destruct (zero_count_spec (N.of_nat (length msg))) as (Hk & Hm & _).
+  set (k := zero_count (N.of_nat (length msg))) in *. lia.
+Qed.
+
+Lemma spec_padding_well_defined (msg : list bool) :
+  let l := N.of_nat (length msg) in
+  let k := zero_count l in
+  k < 512 /\ (l + 1 + k) mod 512 = 448 /\ (forall j, j < k -> (l + 1 + j) mod 512 <> 448) /\
+  N.of_nat (length (pad_bits msg)) mod 512 = 0.
+Proof.
+  cbv zeta. destruct (zero_count_spec (N.of_nat (length msg))) as (A & B & C).
+  repeat split; try assumption. apply pad_bits_whole_blocks.
+Qed.
